@@ -4,7 +4,7 @@ import itertools
 
 OPS = ("Select", "Where", "SelectMany", "sel")  # sel = a wrapper method that forwards its argument to Select
 PARAMS = ("e", "f")
-STYLES = ("one", "brk", "par", "cmt", "str", "nest", "fstr", "coll", "fstr0", "fstr1", "uni")
+STYLES = ("one", "brk", "par", "cmt", "str", "nest", "fstr", "coll", "fstr0", "fstr1", "uni", "clo")
 
 
 def lam(p, k, op, style):
@@ -20,6 +20,10 @@ def lam(p, k, op, style):
         return f"lambda {p}: {p}.m{k}{cmp_}  # a comment ) with lambda x: x, and (\n\t"
     if style == "str":
         return f"lambda {p}: {p}.m{k}.s('a)b, lambda z: z('){cmp_}"
+    if style == "clo":
+        # mentions a variable of the enclosing scope (a closure cell inside a function: the code object then starts
+        # with instructions that have no source position)
+        return f"lambda {p}: {p}.m{k}.s(KLOC){cmp_}"
     if style == "uni":
         # characters that take several bytes in utf-8 (python counts code columns in bytes, the tokenizer in characters)
         return f"lambda {p}: {p}.m{k}.s('\u00e9\u221a\U0001f600'){cmp_}"
@@ -49,15 +53,20 @@ def two_call_statements(c1, c2):
     out["wrap"] = f"r = ds.{o1}(\n\t    {l1}\n\t).{o2}(\n\t    {l2}\n\t)"
     out["assign"] = f"q = ds.{o1}({l1})\n\tr = q.{o2}({l2})"
     if s1 != "cmt" and s2 != "cmt":
+        # a lambda nested in an enclosing lambda that the user's own code calls (same parameter name / another one)
+        out["enclosing"] = f"r = (lambda {p1}: {p1}.{o2}({l2}))(ds.{o1}({l1}))"
+        out["enclosing-apply"] = f"r = ds.apply(lambda {p2}: {p2}.{o1}({l1}).{o2}({l2}))"
         out["ifexp"] = f"r = ds.{o1}({l1}) if ds.flag else ds.{o2}({l2})"
         out["tuple"] = f"r = (ds.{o1}({l1}), ds.{o2}({l2}))[1]"
         out["semicolon"] = f"q = ds.{o1}({l1}); r = q.{o2}({l2})"
         out["otherarg"] = f"r = ds.keep({l1}).{o2}({l2})"
+    if "clo" in (s1, s2):
+        out = {k: "KLOC = 7\n\t" + v for k, v in out.items()}
     return out
 
 
 CONTEXTS = ("module", "def", "method", "oneline-def", "oneline-def1", "oneline-if", "nested-def", "decorator", "if-block",
-            "try-block", "module-eof")
+            "try-block", "module-eof", "method-tabs", "def-if-tabs")
 
 
 def in_context(stmt, ctx):
@@ -67,6 +76,10 @@ def in_context(stmt, ctx):
         return stmt.replace("\t", " " * n)
     if ctx == "module":
         return ind(0) + "\nRESULT = r\n"
+    if ctx == "method-tabs":  # indented with TAB characters, two levels deep
+        return "class K:\n\tdef build(self):\n\t\t" + stmt.replace("\t", "\t\t") + "\n\t\treturn r\nRESULT = K().build()\n"
+    if ctx == "def-if-tabs":
+        return "def build():\n\tif True:\n\t\t" + stmt.replace("\t", "\t\t") + "\n\treturn r\nRESULT = build()\n"
     if ctx == "if-block":  # indented, but not inside a function or class
         return "if True:\n    " + ind(4) + "\nRESULT = r\n"
     if ctx == "try-block":
